@@ -153,14 +153,18 @@ def _install_auth_fake(w):
     import aiohttp
 
     sess = w.client_session
+    w.c14_auth = {'inactive': set(), 'revoked': set()}   # what the (fake) auth service has been told since the world was seeded
 
     async def get_read_json(url, **kw):
         sess.calls.append(('GET', url))
         hdr = (kw.get('headers') or {}).get('Authorization', '')
         tok = hdr[len('Bearer '):] if hdr.startswith('Bearer ') else None
         if url.endswith('/api/v1alpha/userinfo'):
-            if tok in TOKENS:
-                return dict(TOKENS[tok])
+            if tok in TOKENS and TOKENS[tok]['username'] not in w.c14_auth['revoked']:
+                ud = dict(TOKENS[tok])
+                if ud['username'] in w.c14_auth['inactive']:
+                    ud['state'] = 'inactive'
+                return ud
             raise aiohttp.ClientResponseError(None, (), status=401, message='Unauthorized')
         m = re.search(r'/api/v1alpha/users/([^/]+)$', url)
         if m and '/auth' in url:
@@ -248,15 +252,7 @@ def world():
     q("UPDATE batches SET deleted = 1 WHERE id = 3")
     w.run(_drain(w))
 
-    committed1 = {u['batch_id'] for u in w.table('batch_updates') if u['update_id'] == 1 and u['committed']}
-    truth = {
-        'batches': {b['id']: {'user': b['user'], 'bp': b['billing_project'], 'deleted': bool(b['deleted']),
-                              'first_update_committed': b['id'] in committed1} for b in w.table('batches')},
-        'members': {},
-        'bp_status': {b['name']: b['status'] for b in w.table('billing_projects')},
-    }
-    for r in w.table('billing_project_users'):
-        truth['members'].setdefault(r['billing_project'], set()).add(r['user'])
+    truth = truth_from_tables(w)
     assert sorted(truth['batches']) == [1, 2, 3, 4, 5, 6], truth
     assert not truth['batches'][6]['first_update_committed'] and truth['batches'][1]['first_update_committed']
     assert truth['batches'][3]['deleted'] and not truth['batches'][1]['deleted']
@@ -265,8 +261,154 @@ def world():
     app.add_routes(fe.routes)
     base = w.snapshot()
     files0 = dict(w.file_store.files)
+    w.c14_modstate = ModuleState(w)
     _W = (w, base, files0, truth, app.router, fe)
     return _W
+
+
+def truth_from_tables(w):
+    """Membership / ownership ground truth, read from the tables (data, not code) and from what the auth service was told."""
+    committed1 = {u['batch_id'] for u in w.table('batch_updates') if u['update_id'] == 1 and u['committed']}
+    truth = {
+        'batches': {b['id']: {'user': b['user'], 'bp': b['billing_project'], 'deleted': bool(b['deleted']),
+                              'first_update_committed': b['id'] in committed1} for b in w.table('batches')},
+        'members': {},
+        'bp_status': {b['name']: b['status'] for b in w.table('billing_projects')},
+        'inactive': set(w.c14_auth['inactive']),
+        'revoked': set(w.c14_auth['revoked']),
+    }
+    for r in w.table('billing_project_users'):
+        truth['members'].setdefault(r['billing_project'], set()).add(r['user'])
+    return truth
+
+
+def fresh(ctx):
+    """Back to the seeded state: database, file store, auth service, and every piece of mutable module / app state."""
+    w, base, files0, truth, router, fe = ctx
+    w.restore(base)
+    w.file_store.files.clear()
+    w.file_store.files.update(files0)
+    w.c14_auth['inactive'].clear()
+    w.c14_auth['revoked'].clear()
+    w.c14_modstate.reset()
+
+
+# ------------------------------------------------------------------------------------------------------
+# mutable state of the service process (module globals, class attributes, closures, the app mapping): it must persist
+# across the steps of one history (one front-end process) and be put back between histories
+# ------------------------------------------------------------------------------------------------------
+WATCHED_PREFIXES = ('batch.front_end', 'gear', 'web_common')
+WATCHED_MODULES = ('batch.utils', 'batch.batch', 'batch.exceptions', 'batch.spec_writer', 'batch.globals', 'batch.file_store',
+                   'batch.batch_configuration', 'batch.batch_format_version', 'batch.inst_coll_config', 'batch.resource_usage',
+                   'batch.resources', 'batch.constants')
+WALK_ROOTS = ('batch', 'gear', 'web_common', 'hailtop', 'sortedcontainers')
+BENIGN_ROOTS = ('prometheus_client', 'prometheus_async', 'asyncio', 'aiohttp', 'yarl', 'multidict', 'vf', 'aiomysql', 'pymysql',
+                'unittest', 'jinja2', 'aiohttp_jinja2', 'aiohttp_session', 'concurrent', '_thread', 'threading', 'ssl', 'contextvars')
+
+
+class ModuleState:
+    def __init__(self, w):
+        import sys
+
+        self.saved = []        # (kind, object, saved shallow copy)
+        self.lru = []
+        self.unknown = []      # module globals of a kind that can neither be proven immutable nor be reset
+        self.seen = set()
+        self.n_globals = 0
+        for name, mod in sorted(sys.modules.items()):
+            if mod is None or not (name in WATCHED_MODULES or name.startswith(WATCHED_PREFIXES)):
+                continue
+            for k, v in list(vars(mod).items()):
+                if k.startswith('__') and k.endswith('__'):
+                    continue
+                self.n_globals += 1
+                self.walk(v, 0, f'{name}.{k}', name)
+        self.walk(w.app, 0, 'app', None)
+
+    def walk(self, obj, depth, where, modname):
+        import collections
+        import enum
+        import functools
+        import logging
+        import types
+
+        if id(obj) in self.seen or depth > 8:
+            return
+        t = type(obj)
+        root = (t.__module__ or '').split('.')[0]
+        if obj is None or isinstance(obj, (types.ModuleType, types.BuiltinFunctionType, str, bytes, int, float, complex, re.Pattern,
+                                           logging.Logger, enum.Enum, range, types.MappingProxyType)) or root in ('typing', 'typing_extensions'):
+            return
+        self.seen.add(id(obj))
+        if isinstance(obj, (dict, list, set, collections.deque, bytearray)):
+            copy = t(obj) if not isinstance(obj, collections.defaultdict) else dict(obj)
+            self.saved.append(('cont', obj, copy))
+            for x in (list(obj.values()) if isinstance(obj, dict) else list(obj)):
+                self.walk(x, depth + 1, where, modname)
+            return
+        if isinstance(obj, (tuple, frozenset)):
+            for x in obj:
+                self.walk(x, depth + 1, where, modname)
+            return
+        if isinstance(obj, functools._lru_cache_wrapper):
+            self.lru.append(obj)
+            return
+        if isinstance(obj, (types.FunctionType, types.MethodType, functools.partial, staticmethod, classmethod, property)):
+            f = getattr(obj, '__func__', None) or getattr(obj, 'func', None) or getattr(obj, 'fget', None) or obj
+            if isinstance(f, types.FunctionType) and (f.__module__ or '').split('.')[0] in WALK_ROOTS[:3]:
+                for cell in f.__closure__ or ():
+                    try:
+                        self.walk(cell.cell_contents, depth + 1, where, modname)
+                    except ValueError:
+                        pass
+                if f.__dict__:
+                    self.walk(f.__dict__, depth + 1, where, modname)
+            return
+        if isinstance(obj, type):
+            if (obj.__module__ or '').split('.')[0] in WALK_ROOTS[:3]:
+                for k, v in list(vars(obj).items()):
+                    if not (k.startswith('__') and k.endswith('__')):
+                        self.walk(v, depth + 1, f'{where}.{k}', modname)
+            return
+        if root in WALK_ROOTS and hasattr(obj, '__dict__'):
+            self.saved.append(('inst', obj, dict(obj.__dict__)))
+            for x in list(obj.__dict__.values()):
+                self.walk(x, depth + 1, where, modname)
+            return
+        if root in BENIGN_ROOTS:
+            return
+        if depth == 0:
+            self.unknown.append(f'{where}: {t.__module__}.{t.__qualname__}')
+
+    def reset(self):
+        for kind, obj, copy in self.saved:
+            if kind == 'inst':
+                obj.__dict__.clear()
+                obj.__dict__.update(copy)
+            elif isinstance(obj, dict):
+                obj.clear()
+                obj.update(copy)
+            elif isinstance(obj, set):
+                obj.clear()
+                obj.update(copy)
+            elif isinstance(obj, (list, bytearray)):
+                obj[:] = copy
+            else:
+                obj.clear()
+                obj.extend(copy)
+        for f in self.lru:
+            f.cache_clear()
+
+    def new_globals(self):
+        """Mutable module globals created after the snapshot (e.g. a lazily created cache): report, they cannot be reset."""
+        import sys
+
+        n = 0
+        for name, mod in sorted(sys.modules.items()):
+            if mod is None or not (name in WATCHED_MODULES or name.startswith(WATCHED_PREFIXES)):
+                continue
+            n += sum(1 for k in vars(mod) if not (k.startswith('__') and k.endswith('__')))
+        return n - self.n_globals
 
 
 async def _drain(w):
@@ -408,7 +550,7 @@ def rights(truth, cls, caller, target):
     class and the target exists, so an authentication / authorisation refusal would be wrong."""
     tok, user, _ = CALLERS[caller]
     ud = USERDATA.get(user) if user else None
-    authed = ud is not None and ud['state'] == 'active'
+    authed = ud is not None and ud['state'] == 'active' and user not in truth.get('inactive', ()) and user not in truth.get('revoked', ())
     if cls == 'public':
         return True, True
     if not authed:
@@ -511,9 +653,16 @@ def _subst(x, token):
 
 
 def run_case(case):
-    """case = (route index, caller, target, variant index).  Returns a json-able row."""
+    """case = (route index, caller, target, variant index) from the seeded state.  Returns a json-able row."""
+    ctx = world()
+    fresh(ctx)
+    return judge(ctx, case, ctx[3])
+
+
+def judge(ctx, case, truth, fresh_session_cache=True):
+    """Send one request in the CURRENT state of the world and judge the answer against `truth`."""
     ridx, caller, target, vidx = case
-    w, base, files0, truth, router, fe = world()
+    w, base, files0, _, router, fe = ctx
     routes = list(fe.routes)
     r = routes[ridx]
     method, path = r.method, r.path
@@ -522,11 +671,11 @@ def run_case(case):
     label, params, query, body, form, tag = variants[vidx]
     tok, user, how = CALLERS[caller]
 
-    w.restore(base)
-    w.file_store.files.clear()
-    w.file_store.files.update(files0)
-    type(fe.auth).__init__(fe.auth)   # fresh session cache, real constructor
+    if fresh_session_cache:
+        type(fe.auth).__init__(fe.auth)   # fresh session cache, real constructor
+    w.client_session.calls.clear()
     dump0 = w.mdb.store.dump()
+    files_before = dict(w.file_store.files)
     out = {'case': list(case), 'route': f'{method} {path}', 'class': cls, 'caller': caller, 'target': target, 'variant': label, 'tag': tag}
 
     if tag == 'api-token':
@@ -540,7 +689,8 @@ def run_case(case):
         out['token_shown_by_api'] = shown is not None
         body = _subst(body, shown if shown is not None else 'token-not-shown-to-caller')
         w.client_session.calls.clear()
-        type(fe.auth).__init__(fe.auth)
+        if fresh_session_cache:
+            type(fe.auth).__init__(fe.auth)
 
     status, reason, location, resp, exc_name, concrete = _send(w, router, r, caller, params, query, body, form)
     if exc_name is not None:
@@ -549,7 +699,7 @@ def run_case(case):
     dump1 = w.mdb.store.dump()
     changed = dump1 != dump0
     outbound = [c for c in w.client_session.calls if not c[1].endswith('/api/v1alpha/userinfo')]
-    files_changed = dict(w.file_store.files) != files0
+    files_changed = dict(w.file_store.files) != files_before
 
     login = is_login_redirect(status, location)
     # "every other caller gets an error": any 4xx / 5xx answer (a handler that raises is a 500) or the login redirect
@@ -566,6 +716,7 @@ def run_case(case):
     out['may'], out['must'] = may, must
     viol = []
     who = f'{caller} -> {method} {concrete or "/"} [{label}]'
+    out['who'] = who
     if not may:
         if not refused:
             viol.append((f'served-outside-class:{cls}:{method} {path}',
@@ -585,6 +736,132 @@ def run_case(case):
         out['listed'] = getattr(resp, '_c14_listed', None)
     out['viol'] = viol
     return out
+
+
+# ------------------------------------------------------------------------------------------------------
+# histories:  [request r1 by caller c] ; [membership / ownership / account change through the real handlers] ; [request r2 by c]
+# on ONE front-end process (module state, app mapping and session cache persist across the steps), r2 judged against the
+# truth AFTER the change.
+# ------------------------------------------------------------------------------------------------------
+USER_CALLER = {'u1': 'u1', 'u2': 'u2', 'u3': 'nonmember'}
+SESSION_CACHE_MS = 11_000   # gear.auth caches /userinfo answers for 10 s; account changes are judged once that has passed
+
+# (operation, caller whose rights are probed, target batch)
+HISTORY_COMBOS = [
+    (('remove-user', 'bp', 'u1'), 'u1', 1), (('remove-user', 'bp', 'u1'), 'u1', 4),
+    (('remove-user', 'bp', 'u2'), 'u2', 1), (('remove-user', 'bp', 'u2'), 'u2', 4),
+    (('remove-user', 'bp2', 'u2'), 'u2', 2),
+    (('add-user', 'bp', 'u3'), 'nonmember', 1), (('add-user', 'bp', 'u3'), 'nonmember', 4),
+    (('add-user', 'bp2', 'u1'), 'u1', 2),
+    (('close-project', 'bp2'), 'u2', 2), (('close-project', 'bp2'), 'u1', 2),
+    (('reopen-project', 'bpc'), 'u1', 1),
+    (('delete-batch', 1, 'u1'), 'u1', 1), (('delete-batch', 1, 'u1'), 'u2', 1),
+    (('delete-batch', 4, 'u2'), 'u1', 4), (('delete-batch', 4, 'u2'), 'u2', 4),
+    (('deactivate-user', 'u1'), 'u1', 1), (('deactivate-user', 'u1'), 'u1', 4), (('deactivate-user', 'u2'), 'u2', 2),
+    (('revoke-session', 'u1'), 'u1', 1),
+    # controls: a change that concerns somebody else leaves the caller's rights alone
+    (('remove-user', 'bp', 'u2'), 'u1', 4), (('remove-user', 'bp', 'u1'), 'u2', 1),
+]
+PROBES = [('GET', '/api/v1alpha/batches/{batch_id}'), ('PATCH', '/api/v1alpha/batches/{batch_id}/cancel'),
+          ('DELETE', '/api/v1alpha/batches/{batch_id}'), ('GET', '/api/v1alpha/batches/{batch_id}/jobs/{job_id}/log'),
+          ('PATCH', '/api/v1alpha/batches/{batch_id}/updates/{update_id}/commit')]
+
+
+def _route_index(fe, method, path):
+    for i, r in enumerate(fe.routes):
+        if getattr(r, 'method', None) == method and getattr(r, 'path', None) == path:
+            return i
+    return None
+
+
+def apply_admin_op(ctx, op):
+    """Perform the change through the real routes (developer / auth / owner as the acting caller).  -> status of that request"""
+    w, base, files0, _, router, fe = ctx
+    routes = list(fe.routes)
+    kind = op[0]
+
+    def call(method, path, actor, params):
+        i = _route_index(fe, method, path)
+        if i is None:
+            return 'route-missing'
+        st, reason, _, _, exc, _ = _send(w, router, routes[i], actor, params, None, None, None)
+        return st if exc is None else f'exception:{exc}'
+
+    if kind == 'remove-user':
+        return call('POST', '/api/v1alpha/billing_projects/{billing_project}/users/{user}/remove', 'developer', {'billing_project': op[1], 'user': op[2]})
+    if kind == 'add-user':
+        return call('POST', '/api/v1alpha/billing_projects/{billing_project}/users/{user}/add', 'auth', {'billing_project': op[1], 'user': op[2]})
+    if kind == 'close-project':
+        return call('POST', '/api/v1alpha/billing_projects/{billing_project}/close', 'developer', {'billing_project': op[1]})
+    if kind == 'reopen-project':
+        return call('POST', '/api/v1alpha/billing_projects/{billing_project}/reopen', 'developer', {'billing_project': op[1]})
+    if kind == 'delete-batch':
+        return call('DELETE', '/api/v1alpha/batches/{batch_id}', USER_CALLER[op[2]], {'batch_id': str(op[1])})
+    if kind == 'deactivate-user':      # the auth service deactivates the account; the 10 s session cache of gear.auth runs out
+        w.c14_auth['inactive'].add(op[1])
+        w.now_ms += SESSION_CACHE_MS
+        return 200
+    if kind == 'revoke-session':       # logout / session deleted at the auth service
+        w.c14_auth['revoked'].add(op[1])
+        w.now_ms += SESSION_CACHE_MS
+        return 200
+    raise AssertionError(op)
+
+
+def batch_scoped_requests(fe, target):
+    """[(route index, variant index)] of every batch-scoped route for this target."""
+    out = []
+    for i, r in enumerate(fe.routes):
+        m, p = getattr(r, 'method', None), getattr(r, 'path', None)
+        cls = classify(m, p) if m else None
+        if cls in ('batch-read', 'batch-cancel-delete', 'batch-write'):
+            for v in range(len(request_variants(m, p, cls, target) or ())):
+                out.append((i, v))
+    return out
+
+
+def all_histories(tier):
+    """(op, caller, target, r1 or None, r2): 2-step histories first, then 3-step ones."""
+    from batch.front_end import front_end as fe
+
+    two, three = [], []
+    probes = [(i, 0) for i in (_route_index(fe, m, p) for m, p in PROBES) if i is not None]
+    for op, caller, target in HISTORY_COMBOS:
+        reqs = batch_scoped_requests(fe, target)
+        for r2 in reqs:
+            two.append((op, caller, target, None, r2))
+        for r1 in reqs:
+            seconds = reqs if tier != 'quick' else [r1] + [p for p in probes if p != r1]
+            for r2 in seconds:
+                three.append((op, caller, target, r1, r2))
+    return two + three
+
+
+def run_history(h):
+    op, caller, target, r1, r2 = h
+    ctx = world()
+    w = ctx[0]
+    fresh(ctx)
+    fe = ctx[5]
+    type(fe.auth).__init__(fe.auth)
+    row1 = None
+    if r1 is not None:
+        row1 = judge(ctx, (r1[0], caller, target, r1[1]), ctx[3], fresh_session_cache=False)
+    before = truth_from_tables(w)
+    op_status = apply_admin_op(ctx, tuple(op))
+    after = truth_from_tables(w)
+    row = judge(ctx, (r2[0], caller, target, r2[1]), after, fresh_session_cache=False)
+    cls = row['class']
+    kind = op[0]
+    steps = ([f'{row1["who"]} => {row1["status"]}'] if row1 else []) + [f'{" ".join(map(str, op))} => {op_status}', f'{row["who"]} => {row["status"]}']
+    row['history'] = [list(op) if isinstance(op, tuple) else op, caller, target, list(r1) if r1 else None, list(r2)]
+    row['steps'] = steps
+    row['op_status'] = op_status
+    row['r1_status'] = row1['status'] if row1 else None
+    row['rights_before'] = list(rights(before, cls, caller, target))
+    row['rights_changed'] = rights(before, cls, caller, target) != rights(after, cls, caller, target)
+    row['viol'] = [(f'after {kind}: {sig}', 'history ' + ' ; '.join(steps) + ' -- ' + msg.split(': ', 1)[1]) for sig, msg in row['viol']]
+    return row
 
 
 def _diff(d0, d1):
